@@ -117,13 +117,9 @@ func normKeepSingle(it ap.Item) ap.Item {
 	case *ap.ItemCollection:
 		return *x
 	case ap.IRIs:
-		c := make(ap.ItemCollection, len(x))
-		for i := range x {
-			c[i] = x[i]
-		}
-		return c
+		return x // a list of IRIs stored as such is read back as such
 	case *ap.IRIs:
-		return normKeepSingle(*x)
+		return *x
 	}
 	return NormItem(it)
 }
@@ -207,6 +203,18 @@ func DiffItems(path, cell string, want, got ap.Item, f Form, out *[]Diff) {
 	case ap.IRI:
 		if gx, ok := g.(ap.IRI); !ok || gx != wx {
 			*out = append(*out, Diff{path, cell, "iri", Render(w), Render(g)})
+		}
+		return
+	case ap.IRIs:
+		gx, ok := g.(ap.IRIs)
+		if !ok || len(gx) != len(wx) {
+			*out = append(*out, Diff{path, cell, "iris", Render(w), Render(g)})
+			return
+		}
+		for i := range wx {
+			if wx[i] != gx[i] {
+				*out = append(*out, Diff{fmt.Sprintf("%s[%d]", path, i), cell, "iris", Render(wx[i]), Render(gx[i])})
+			}
 		}
 		return
 	case ap.ItemCollection:
